@@ -185,8 +185,12 @@ package transport
 //@ ensures len(result) == 18 && ptr(result) == ptr(buf)
 //@ ensures be16(result, 0) == h.method && be64(result, 2) == h.size && be32(result, 14) == h.crc
 //@ ensures forall i int :: 18 <= i && i < len(buf) ==> buf[i] == old(buf[i])
+// the header's own checksum is the CRC-32 of ALL 18 header bytes (method included), taken with the checksum
+// field blanked: a corrupted method, size or payload checksum is covered
+//@ ensures be32(result, 10) == uf("crc32", ptr(buf), 18)
 
 //@ func (h *requestHeader) decode [C13]
+//@ ensures result ==> old(be32(buf, 10)) == uf("crc32", ptr(buf), 18)
 //@ modifies *h, elems(buf)
 //@ ensures result ==> len(buf) >= 18 && h.method == be16(buf, 0) && h.size == be64(buf, 2) && h.crc == be32(buf, 14) && (h.method == raftType || h.method == snapshotType)
 //@ ensures !result ==> h.method == old(h.method) && h.size == old(h.size) && h.crc == old(h.crc)
